@@ -32,11 +32,23 @@ func (ex *Exec) callBuiltin(caller *frame, fn *ssa.Builtin, args []value) value 
 		// copy aggregates
 		need := len(a0) + len(tail)
 		if need <= cap(a0) {
+			// in place: the spare capacity may be shared with another slice
+			// header (s[:0] of a slice somebody else still holds)
 			res := a0[:need]
 			for i, v := range tail {
+				if ex.hb != nil {
+					ex.hbWhat = "slice element written by append"
+					ex.hbWrite(&res[len(a0)+i])
+				}
 				res[len(a0)+i] = copyVal(v)
 			}
 			return res
+		}
+		if ex.hb != nil {
+			for i := range a0 {
+				ex.hbWhat = "slice element copied by append"
+				ex.hbRead(&a0[i])
+			}
 		}
 		ncap := cap(a0) * 2
 		if ncap < need {
